@@ -83,3 +83,28 @@ Theorem C11_generated_connect_one_is_the_model : forall gt sg dg f,
   MV.Gen.ConnectOne.connect_one gt sg dg f = embed (MV.Static.Connect.connect_one gt sg dg f).
 Proof. exact tie_connect_one. Qed.
 Print Assumptions C11_generated_connect_one_is_the_model.
+
+(* where the group tree comes from: World.group, regenerated from mosaik/scenario.py on every run (Gen/GroupFns.v: the statements
+   before and after the yield of the context manager), run over any well-nested script of `with world.group():` blocks and
+   simulator starts.  Every well-nested script leaves the current group as it found it; a new group's parent is the group that
+   was current when its block was entered; so two blocks opened one after the other are siblings under the same parent -
+   whatever is nested inside the first - and the table stays one the group lemmas above apply to (wfGb). *)
+From MV Require Import Gen.GroupFns Static.GroupTie.
+Theorem C11_generated_group_blocks_restore_the_current_group : forall ops, nested ops -> forall w, exists w',
+  grun w ops = Some w' /\ w_cur w' = w_cur w /\ w_stack w' = w_stack w /\ exists ext, w_gt w' = w_gt w ++ ext.
+Proof. exact nested_restores. Qed.
+Print Assumptions C11_generated_group_blocks_restore_the_current_group.
+Theorem C11_generated_consecutive_blocks_are_siblings : forall b1 b2 w, nested b1 -> nested b2 -> exists w',
+  grun w (Enter :: b1 ++ Leave :: Enter :: b2 ++ [Leave]) = Some w' /\ w_cur w' = w_cur w /\
+  exists g1 g2, g1 <> g2 /\ parent (w_gt w') g1 = Some (w_cur w) /\ parent (w_gt w') g2 = Some (w_cur w).
+Proof. exact consecutive_blocks_are_siblings. Qed.
+Print Assumptions C11_generated_consecutive_blocks_are_siblings.
+Theorem C11_generated_group_enter_keeps_the_table_well_formed : forall gt cur, wfGb gt = true -> (cur < length gt)%nat ->
+  wfGb (fst (fst (group_enter gt cur))) = true.
+Proof. exact enter_keeps_wf. Qed.
+Print Assumptions C11_generated_group_enter_keeps_the_table_well_formed.
+Example C11_generated_groups_nonvacuous :
+  match grun (mkW [None] 0%nat [] []) [Enter; Enter; Start; Leave; Leave; Start; Enter; Start; Leave] with
+  | Some w => w_gt w = [None; Some 0; Some 1; Some 0]%nat /\ w_started w = [3; 0; 2]%nat /\ w_cur w = 0%nat
+  | None => False end.
+Proof. vm_compute. repeat split; reflexivity. Qed.
